@@ -57,6 +57,8 @@ class SeqSortInfo:
         self.len = z3.Function(f"len_{n}", self.sort, IntS)
         self.at = z3.Function(f"at_{n}", self.sort, IntS, elem_sort)
         self.empty = z3.Const(f"empty_{n}", self.sort)
+        self.snoc = z3.Function(f"snoc_{n}", self.sort, elem_sort, self.sort)
+        self.cat = z3.Function(f"cat_{n}", self.sort, self.sort, self.sort)
 
 
 def seq_sort(elem_sort: z3.SortRef) -> SeqSortInfo:
@@ -72,6 +74,18 @@ def seq_axioms() -> list[z3.BoolRef]:
         s = z3.Const("s", info.sort)
         out.append(z3.ForAll([s], info.len(s) >= 0, patterns=[info.len(s)]))
         out.append(info.len(info.empty) == 0)
+        t = z3.Const("t", info.sort)
+        x = z3.Const("x", info.elem)
+        i = z3.Int("i")
+        sn = info.snoc(s, x)
+        out.append(z3.ForAll([s, x], z3.And(info.len(sn) == info.len(s) + 1, info.at(sn, info.len(s)) == x), patterns=[sn]))
+        out.append(z3.ForAll([s, x, i], z3.Implies(z3.And(0 <= i, i < info.len(s)), info.at(sn, i) == info.at(s, i)), patterns=[info.at(sn, i)]))
+        ct = info.cat(s, t)
+        out.append(z3.ForAll([s, t], info.len(ct) == info.len(s) + info.len(t), patterns=[ct]))
+        out.append(z3.ForAll([s, t, i], z3.Implies(z3.And(0 <= i, i < info.len(s)), info.at(ct, i) == info.at(s, i)), patterns=[info.at(ct, i)]))
+        out.append(z3.ForAll([s, t, i], z3.Implies(z3.And(info.len(s) <= i, i < info.len(ct)), info.at(ct, i) == info.at(t, i - info.len(s))), patterns=[info.at(ct, i)]))
+        # extensionality for the empty sequence
+        out.append(z3.ForAll([s], z3.Implies(info.len(s) == 0, s == info.empty), patterns=[info.len(s)]))
     return out
 
 
@@ -203,6 +217,21 @@ class TSeqT(TD):
 
     def truthy(self, sv):
         return self.info.len(sv.z) > 0
+
+
+class TTupleT(TD):
+    """A fixed-arity heterogeneous tuple: a python-level value, not one z3 term."""
+
+    sort = None  # type: ignore[assignment]
+
+    def __init__(self, items: list[TD]):
+        self.items = items
+        self.name = f"tuple[{', '.join(t.name for t in items)}]"
+
+    def fresh(self, prefix: str = "v"):
+        from .state import PyTuple
+
+        return PyTuple([t.fresh(f"{prefix}{i}") for i, t in enumerate(self.items)])
 
 
 TInt = TIntT()
